@@ -56,20 +56,25 @@ def include_flags(prop):
             "-I" + COMMON, "-I" + STUBS, "-I" + os.path.join(VERIF, "harness", prop)]
 
 
-def limit(mem_gb):
+def limit(mem_gb, cpu_s=None):
     def f():
         b = int(mem_gb * (1 << 30))
         resource.setrlimit(resource.RLIMIT_AS, (b, b))
+        if cpu_s:
+            resource.setrlimit(resource.RLIMIT_CPU, (int(cpu_s), int(cpu_s) + 5))
         os.setsid()
     return f
 
 
 def run(cmd, out, timeout, mem_gb, cwd=None, env=None):
+    """`timeout` is a budget of CPU seconds of the (single-threaded) tool, so that a verdict does not depend on how
+    loaded the machine is; the wall clock is only a backstop at 5x that budget.  Returns (rc, seconds used) where
+    seconds is the wall time, or the budget when it was exhausted; rc == -9 means budget exhausted / killed."""
     t0 = time.time()
     with open(out, "w") as fo:
-        p = subprocess.Popen(cmd, stdout=fo, stderr=subprocess.STDOUT, preexec_fn=limit(mem_gb), cwd=cwd, env=env)
+        p = subprocess.Popen(cmd, stdout=fo, stderr=subprocess.STDOUT, preexec_fn=limit(mem_gb, timeout), cwd=cwd, env=env)
         try:
-            rc = p.wait(timeout=timeout)
+            rc = p.wait(timeout=timeout * 5 + 60)
         except subprocess.TimeoutExpired:
             try:
                 os.killpg(p.pid, 9)
@@ -77,7 +82,10 @@ def run(cmd, out, timeout, mem_gb, cwd=None, env=None):
                 p.kill()
             p.wait()
             rc = -9
-    return rc, time.time() - t0
+    dt = time.time() - t0
+    if rc in (-24, -9) and rc == -24:   # SIGXCPU: CPU budget exhausted
+        return -9, max(dt, float(timeout))
+    return rc, dt
 
 
 def src_paths(job, prop):
@@ -396,7 +404,7 @@ def run_job(prop, job, tier, kf_defs, keep):
     r["solver_s"] = round(dt, 2)
     if rc == -9:
         r["status"] = "noverdict"
-        r["detail"] = ("timeout after %ds" % tmo) if dt >= tmo - 1 else "solver process killed after %.0fs (SIGKILL: out of memory?)" % dt
+        r["detail"] = ("timeout after %ds of CPU" % tmo) if dt >= tmo - 1 else "solver process killed after %.0fs (SIGKILL: out of memory?)" % dt
         return r
     props, status, msgs = parse_cbmc_json(out)
     if props is None:
